@@ -7,7 +7,8 @@ from .. import gen, model, ser
 from ..val import veq, clone, drop_nulls, strings_of, show
 
 ID = 'C06'
-SIZES = {'quick': 30000, 'thorough': 1500000}
+SIZES = {'quick': 30000, 'thorough': 4000000}
+REQUIRED_EVENTS = ['identity_held', 'escape_held', 'layered_held']
 RULE = ('random JSON-like trees whose keys and values are drawn from an alphabet of $ " \' { } : . space letters digits and whole '
         'directive words. kind=plain: $$-free strings that do not start with $+lowercase (nor are $"..." interpolations) must '
         'evaluate to themselves minus nulls. kind=escape: any tree with every $ doubled must evaluate to the original. '
